@@ -63,10 +63,10 @@ def gen_map_case(rng):
             ops.append('A:' + typed_tlv(rng, code, pool).hex())
         elif k == 'AU':
             c = rng.choice([11, 12, 40, 200, 14, 15])
-            ops.append('A:' + updenc.tlv(rng.choice([0x80, 0xc0, 0x40, 0x00, 0xe0, 0xa0]), c, bytes(rng.below(256) for _ in range(rng.choice([0, 3, 300])))).hex())
+            ops.append('A:' + updenc.tlv(rng.choice([0x80, 0xc0, 0x40, 0x00, 0xe0, 0xa0]), c, bytes(rng.below(256) for _ in range(rng.choice([0, 3, 254, 255, 256, 300])))).hex())
         elif k == 'AI':
             c = rng.choice([1, 3, 4, 5, 8, 16, 32])
-            ops.append('A:' + updenc.tlv(CANON[c], c, bytes(rng.below(256) for _ in range(rng.choice([7, 13, 2])))).hex())
+            ops.append('A:' + updenc.tlv(CANON[c], c, bytes(rng.below(256) for _ in range(rng.choice([7, 13, 2, 255, 257])))).hex())
         elif k == 'M':
             tl = b''.join(typed_tlv(rng, rng.choice(TYPED), pool) for _ in range(rng.below(4)))
             if rng.chance(1, 3):
